@@ -143,11 +143,14 @@ class C03(Prop):
             return
         n = 1100 if tier == "quick" else 2600
         case = Case(self, ctx, Config(backend="memory"), None)
+        case.minimize = False
         try:
             hub = b"s:http|h:com|h:hub|"
             t0 = b"s:http|h:com|h:hub|p:target|"
             others = [b"s:http|h:com|h:o%d|p:%d|" % (i % 7, i) for i in range(n)]
-            for op in (("links", [(hub, t0), (hub, t0)]),
+            deep = b"s:http|h:com|h:deep|" + b"p:d|" * 300
+            for op in (("links", [(deep, t0), (t0, deep), (deep, deep)]),
+                       ("links", [(hub, t0), (hub, t0)]),
                        ("batch", [(hub, others[: n // 2] + [hub] + others[n // 2:])], 50),
                        ("links", [(hub, t0), (others[3], hub), (others[3], hub)])):
                 out = case.idx.apply(op)
